@@ -9,7 +9,7 @@ export CCACHE_DIR=/tmp/ccache CCACHE_BASEDIR="$D" CCACHE_NOHASHDIR=1 CCACHE_MAXS
 T=ON; [ "${2:-}" = notests ] && T=OFF
 cmake -G Ninja -S "$D" -B "$D/_b" -DCMAKE_BUILD_TYPE=Release "-DCMAKE_CXX_FLAGS=-Wno-error -w" \
   "-DCMAKE_CXX_FLAGS_RELEASE=-O2 -DNDEBUG" -DCMAKE_CXX_COMPILER_LAUNCHER=ccache -DCMAKE_C_COMPILER_LAUNCHER=ccache \
-  -DBUILD_DOCUMENTATION=OFF -DBUILD_EXECUTABLES=ON -DBUILD_TESTING=$T -DSTIR_OPENMP=OFF -DGRAPHICS=None \
+  -DBUILD_DOCUMENTATION=OFF -DBUILD_EXECUTABLES=ON -DBUILD_TESTING=$T -DSTIR_OPENMP=${STIR_OPENMP:-OFF} -DGRAPHICS=None \
   -DBUILD_SWIG_PYTHON=OFF > "$D/_b.cfg.log" 2>&1
 ninja -C "$D/_b" > "$D/_b.build.log" 2>&1
 echo "scratch $D ready"
